@@ -282,6 +282,9 @@ macro_rules! tracked_type {
         impl fmt::Debug for $name {
             fn fmt(&self, f: &mut fmt::Formatter) -> fmt::Result { cb_tick(); write!(f, "T({})", self.tag) }
         }
+        impl Default for $name {
+            fn default() -> Self { <$name as Pay>::make(0) }
+        }
         impl fmt::Display for $name {
             fn fmt(&self, f: &mut fmt::Formatter) -> fmt::Result { cb_tick(); write!(f, "t{}", self.tag) }
         }
@@ -586,6 +589,17 @@ impl fmt::Debug for Z {
     fn fmt(&self, f: &mut fmt::Formatter) -> fmt::Result {
         cb_tick();
         write!(f, "T(0)")
+    }
+}
+
+impl Default for Z {
+    fn default() -> Self {
+        <Z as Pay>::make(0)
+    }
+}
+impl Default for TB {
+    fn default() -> Self {
+        <TB as Pay>::make(0)
     }
 }
 
